@@ -309,6 +309,14 @@ func executeOneStep(
 	return queryResult, dependentSteps, queryErr
 }
 
+// responseKey is the key a field's value is stored under in a response
+func responseKey(field *ast.Field) string {
+	if field.Alias != "" {
+		return field.Alias
+	}
+	return field.Name
+}
+
 func max(a, b int) int {
 	if a > b {
 		return a
@@ -324,7 +332,9 @@ func findSelection(matchString string, selectionSet ast.SelectionSet, fragmentDe
 
 	for _, selection := range selectionSetFragments {
 		selection, ok := selection.(*ast.Field)
-		if ok && (selection.Alias == matchString || selection.Name == matchString) {
+		// the points of an insertion path are response keys: the alias if there is one, otherwise the name.
+		// Matching on either would let a field be mistaken for another one that is aliased to its name.
+		if ok && responseKey(selection) == matchString {
 			return selection, nil
 		}
 	}
